@@ -392,6 +392,8 @@ pub mod more {
         mv_nested_closure_capture => { let words: Vec<&str> = a.split(' ').collect(); let longest = words.iter().map(|w| w.len()).max().unwrap_or(0); let pick = |min: usize| words.iter().filter(|w| w.len() >= min).count(); vec![longest, pick(1), pick(longest), pick(longest + 1)] };
         mv_tuple_struct_update => { #[derive(Clone, Default)] struct Cfg { a: usize, b: usize, c: bool } let base = Cfg { a: i, ..Default::default() }; let d = Cfg { b: j, c: true, ..base.clone() }; vec![base.a, base.b, base.c as usize, d.a, d.b, d.c as usize] };
         mv_early_return_loop => o((|| { for (k, c) in a.chars().enumerate() { if c == ' ' { return Some(k); } if k > j { return None; } } None })());
+        mv_range_by_mut_ref => { let mut r = Some(i..=j + 2); let mut out = vec![]; if let Some(x) = r.as_mut() { out.push(x.next().unwrap_or(99)); } if let Some(x) = r.as_mut() { out.push(x.next().unwrap_or(98)); } let mut q = 0..j; let a1 = q.next().unwrap_or(97); let a2 = q.by_ref().take(2).count(); let a3 = q.next().unwrap_or(96); let mut w = i..j + 3; let b1 = (&mut w).next_back().unwrap_or(95); let b2 = w.next_back().unwrap_or(94); out.extend([a1, a2, a3, b1, b2, w.len()]); out };
+        mv_iter_by_mut_ref => { let v: Vec<usize> = a.bytes().map(|x| x as usize).collect(); let mut it = v.iter(); let first: Vec<usize> = it.by_ref().take_while(|x| **x != 32).copied().collect(); let rest: Vec<usize> = it.copied().collect(); let mut ch = a.chars(); let c1 = (&mut ch).next().map(|c| c as usize).unwrap_or(0); let c2 = ch.next().map(|c| c as usize).unwrap_or(0); vec![first.len(), rest.len(), c1, c2, ch.as_str().len()] };
         mv_rc_refcell => { use std::cell::RefCell; let c = Rc::new(RefCell::new(vec![i])); let c2 = Rc::clone(&c); c2.borrow_mut().push(j); let n = c.borrow().len(); let cell = std::cell::Cell::new(i); cell.set(cell.get() + 1); let second = c.borrow()[1]; let sc = Rc::strong_count(&c); vec![n, second, cell.get(), sc] };
     }
 }
